@@ -21,21 +21,7 @@ func init() {
 func runC09(a *A) {
 	W := func() *types.Named { return a.Named("window", "CountingWindow") }
 	startClosure := func() *ssa.Function {
-		st := a.Method("window", "CountingWindow", "Start")
-		var g *ssa.Function
-		allInstrs(st, func(in ssa.Instruction) {
-			if gi, ok := in.(*ssa.Go); ok {
-				if mc, ok := gi.Call.Value.(*ssa.MakeClosure); ok {
-					g = mc.Fn.(*ssa.Function)
-				} else if sc := gi.Call.StaticCallee(); sc != nil && sc.Blocks != nil && a.fnInModule(sc) {
-					g = sc // `go cw.run()`: the goroutine body is a method
-				}
-			}
-		})
-		if g == nil {
-			a.anchorFail("CountingWindow.Start does not start a goroutine (closure or method of the module)")
-		}
-		return g
+		return a.startGoroutine(a.Method("window", "CountingWindow", "Start"))
 	}
 	isDelivery := func(in ssa.Instruction, tm func(ssa.Value) *Term) bool {
 		c, ok := in.(*ssa.Call)
@@ -492,4 +478,45 @@ func countingHost(a *A, g *ssa.Function, isDelivery func(ssa.Instruction, func(s
 		}
 	}
 	return host, hostCall, batches
+}
+
+// startGoroutine: the body of the goroutine a window's Start launches - the closure of `go func(){…}()`, or the
+// method of `go w.run()` when that method is used nowhere else in the module (a second launch or a plain call would
+// make a second consumer; a closure cannot be referred to from elsewhere).
+func (a *A) startGoroutine(st *ssa.Function) *ssa.Function {
+	var g *ssa.Function
+	n := 0
+	allInstrs(st, func(in ssa.Instruction) {
+		if gi, ok := in.(*ssa.Go); ok {
+			if mc, ok := gi.Call.Value.(*ssa.MakeClosure); ok {
+				g = mc.Fn.(*ssa.Function)
+				n++
+			} else if sc := gi.Call.StaticCallee(); sc != nil && sc.Blocks != nil && a.fnInModule(sc) {
+				g = sc
+				n++
+			}
+		}
+	})
+	if g == nil || n != 1 {
+		a.anchorFail(fname(st) + " does not start exactly one goroutine (closure or method of the module)")
+		return nil
+	}
+	if g.Parent() == nil {
+		refs := 0
+		for _, fn := range a.ModFuncs {
+			allInstrs(fn, func(in ssa.Instruction) {
+				var ops [16]*ssa.Value
+				for _, op := range in.Operands(ops[:0]) {
+					if *op == ssa.Value(g) {
+						refs++
+					}
+				}
+			})
+		}
+		if refs != 1 {
+			a.Bad(fname(g)+"#only-started-by-Start", g.Pos(), fmt.Sprintf("%s, the goroutine body %s starts, is referred to %d times in the module: it could run twice (two consumers of one queue)", fname(g), fname(st), refs))
+			return g
+		}
+	}
+	return g
 }
